@@ -182,10 +182,15 @@ Definition run_c17_pem (ins univ gets : sexp) : outcome :=
 
 (* C17: schema equality *)
 Definition run_c17_schemaeq (a b obs : sexp) : outcome :=
-  match dec_schema a, dec_schema b, dec_bool obs with
-  | Some a, Some b, Some obs =>
-      mkOut (chk (Bool.eqb (schema_eqb a b) obs) "corr/prop schema equals = structural equality")
-            1 (if schema_eqb a b then 1 else 0) []
+  match dec_schema a, dec_schema b, obs with
+  | Some _, Some _, SAtom "panic" => mkOut ["prop schema Equals panicked"] 1 1 []
+  | Some a, Some b, obs =>
+      match dec_bool obs with
+      | Some obs =>
+          mkOut (chk (Bool.eqb (schema_eqb a b) obs) "corr/prop schema equals = structural equality")
+                1 (if schema_eqb a b then 1 else 0) []
+      | None => out_bad "schemaeq"
+      end
   | _, _, _ => out_bad "schemaeq"
   end.
 
